@@ -59,49 +59,54 @@ def q10(model: Model, rep: Report):
     if f is None:
         raise AnalysisError("OperationSequence.get_required_parkings vanished")
     pe = PathEnumerator(Evaluator(model, inline_methods=False))
+    pe.own_class_helpers = True
     ps = pe.function_paths(f, self_cls=K)
     s = sym(f.self_name)
-    calls = []   # (call term, stack of loop elems, path)
+    calls = []   # call terms, wherever the question is asked (statement loops, or the value when the scan is written as comprehensions)
 
-    def walk(p, stack):
+    def walk(p):
         for e in p.events:
             if e.term is not None and e.kind in ("assign", "effect", "branch"):
-                for c in find_calls(e.term, "get_requires_parking"):
-                    calls.append((c, list(stack), p))
+                calls.extend(find_calls(e.term, "get_requires_parking"))
             if e.kind == "loop" and e.term is not None:
-                el = ("bound", "for", e.node.lineno, show(e.term))
                 for bp in e.extra["paths"]:
-                    walk(bp, stack + [(el, e.term)])
-        for c in find_calls(p.cond, "get_requires_parking"):
-            calls.append((c, list(stack), p))
+                    walk(bp)
+        calls.extend(find_calls(p.cond, "get_requires_parking"))
+        if p.value is not None:
+            calls.extend(find_calls(p.value, "get_requires_parking"))
     for p in ps:
-        walk(p, [])
+        walk(p)
+
+    def free_bounds(t):
+        """bound elements ``t`` mentions that are not introduced by a comprehension inside ``t`` itself"""
+        inner_doms = set()
+        for c in subterms(t, lambda y: y[0] == "comp"):
+            for dom, _conds in c[3]:
+                inner_doms.add(show(dom))
+        return [b for b in subterms(t, lambda y: y[0] == "bound") if b[3] not in inner_doms]
     seen = set()
     n = 0
-    for c, stack, p in calls:
+    for c in calls:
         a, kw = call_args(c)
         edge = dict(kw).get("edge_ids", a[1] if len(a) > 1 else None)
-        key = (repr(edge), tuple(repr(x[0]) for x in stack))
-        if edge is None or key in seen:
+        if edge is None or repr(edge) in seen:
             continue
-        seen.add(key)
+        seen.add(repr(edge))
         n += 1
-        if not stack:
-            raise AnalysisError("get_required_parkings: get_requires_parking is asked outside the loop over the steps (shape not recognised)")
-        step, step_dom = stack[0]
-        dom_ok = step_dom in (("attr", s, "gate_operations"),) or (devar(step_dom)[0] == "attr" and devar(step_dom)[2] == "gate_operations")
         ed = devar(edge)
-        inner = [b for b, _ in stack[1:] if subterms(ed, lambda y, b=b: y == b)]
-        whole = ed[0] == "comp" and len(ed[3]) == 1 and not ed[3][0][1] and ed[3][0][0] == step and ed[2][0] == "attr" and ed[2][2] == "identifier" and ed[2][1][0] == "bound"
-        if inner:
-            rep.fail("C16.Q10", "OperationSequence.get_required_parkings[whole step]", f.loc, found=f"edge_ids = {show(ed)[:120]} (built from one element of an inner loop)",
+        fb = free_bounds(ed)
+        steps = [b for b in fb if b[3].endswith("gate_operations")]
+        others = [b for b in fb if b not in steps]
+        whole = ed[0] == "comp" and len(ed[3]) == 1 and not ed[3][0][1] and ed[3][0][0] in steps and ed[2][0] == "attr" and ed[2][2] == "identifier" and ed[2][1][0] == "bound"
+        if others:
+            rep.fail("C16.Q10", "OperationSequence.get_required_parkings[whole step]", f.loc, found=f"edge_ids = {show(ed)[:120]} (built from one element of an inner scan: {others[0][3][:60]})",
                      required="[operation.identifier for operation in <the step>]",
                      what="the question is asked per gate: a qubit that takes part in another gate of the same step is not excluded and is reported as requiring parking "
                           "(parked and gated at once), or demands of different gates are not combined", detail="whole-step")
-        elif whole and dom_ok:
+        elif whole:
             rep.ok("C16.Q10", "OperationSequence.get_required_parkings[whole step]", f.loc, found=f"edge_ids = {show(ed)[:120]}", required="identifiers of all gates of the step")
         else:
-            raise AnalysisError(f"get_required_parkings: edge set {show(ed)[:160]} over {show(step_dom)} not recognised as the identifiers of the whole step")
+            raise AnalysisError(f"get_required_parkings: edge set {show(ed)[:160]} not recognised as the identifiers of the whole step")
     rep.floor("get_requires_parking questions in get_required_parkings", n, 1)
 
 
